@@ -45,7 +45,9 @@ func NewBasicBatchedIssuer(issuersArgs ...Issuer) *BasicBatchedIssuer {
 }
 
 func (i BasicBatchedIssuer) EvaluateBatch(req *BatchedTokenRequest) ([]byte, error) {
-	RESPONSE_ERROR := []byte{0}
+	// A request that cannot be served leaves an empty slot, which is encoded
+	// below as an absent token.
+	RESPONSE_ERROR := []byte{}
 
 	responses := make([][]byte, len(req.token_requests))
 	for iReq, req := range req.token_requests {
